@@ -224,9 +224,13 @@ def run_tlc(module, cfg, name, workers=None, timeout=600, simulate=None, depth=N
     res = dict(out=outp, rc=rc, wall=time.time() - t0, generated=0, distinct=0, depth=0,
                violated=None, ok=False, timeout=(rc == -9), cmd=" ".join(cmd[cmd.index("tlc2.TLC"):]))
     lines = []
+    printed = []          # PrintT'ed tuples (<<"REJECTED", ..>>, <<"ACCEPTED", ..>>): kept in memory, the file may be cut
     cov = {}
     with open(outp, errors="replace") as f:
         for ln in f:
+            if ln.startswith('<<"'):
+                printed.append(ln.rstrip("\n"))
+                continue
             if ln.startswith('"{'):
                 try:
                     lines.append(json.loads(json.loads(ln)))
@@ -247,6 +251,7 @@ def run_tlc(module, cfg, name, workers=None, timeout=600, simulate=None, depth=N
             if m:
                 cov[m.group(1)] = [int(m.group(2)), int(m.group(3))]
     res["lines"] = lines
+    res["printed"] = printed
     res["coverage"] = cov
     # the edge log can be hundreds of MB: keep only TLC's own messages on disk
     try:
